@@ -880,7 +880,7 @@ def eval_hostile(ctx: Ctx, case: dict):
 
 def hostile_lru_enabled():
     """LRUCache.get on the unchanged tree unlinks the node before it looks at value.expiration, so an exception there
-    leaves the node in the dict but out of the ring (a fix is proposed in corpus/C17/FIX-lru-get-unlink-before-expiry-check.diff).
+    leaves the node in the dict but out of the ring (a fix is proposed in corpus/C17/APPLIED-5ebffc8-lru-get-unlink-before-expiry-check.diff).
     The LRU half of this stream, and its witness, are switched on by renaming corpus/C17/hostile-lru-get.json.pending
     to .json once the repair is in the repository."""
     return os.path.exists(os.path.join(VERIF, "corpus", "C17", "hostile-lru-get.json")) or os.environ.get("VERIF_C17_HOSTILE_LRU") == "1"
